@@ -144,3 +144,34 @@ def call(tag, *args, **kwargs):
 
 def F(tag):
     return partial(call, tag)
+
+
+# ---- instrumented chunk functions for collection-level checks (C16) ----------
+
+BUMP = {"P": 1, "C": 10, "O": 100, "D": 1000, "X": 7, "Y": 9}
+
+
+def mark(tag, x, *more):
+    """Chunk function tagged `tag`: logs start/end (only while a run is active —
+    map_blocks also calls it at graph-construction time for meta inference) and
+    returns x shifted by a tag-specific amount (plus the other operands)."""
+    run = RUN
+    if run["active"]:
+        run["log"].append(("chunk", tag, "start"))
+        hook = run["on_call"]
+        if hook is not None:
+            hook(tag, "start")
+    b = BUMP.get(tag, 3)
+    if isinstance(x, list):
+        res = [v + b for v in x]
+    else:
+        res = x + b
+        for m in more:
+            res = res + m
+    if run["active"]:
+        run["log"].append(("chunk", tag, "end"))
+    return res
+
+
+def M(tag):
+    return partial(mark, tag)
